@@ -26,7 +26,8 @@ EXTRA_STYLES = (("causal", True), (None, False), (None, True))
 FLAGS = list(itertools.product((True, False), (False, True), (False, True)))  # log, power, energy
 
 
-VARIANTS = ("generic", "zeros", "loud_then_quiet", "outlier", "tiny", "strided", "reversed_view")
+VARIANTS = ("generic", "zeros", "loud_then_quiet", "outlier", "tiny", "strided", "reversed_view",
+            "bigendian", "via_deepcopy", "via_pickle", "second_call")
 
 
 def RTOL(bank):
@@ -65,7 +66,24 @@ def _signal(seed, N, variant):
         x = big[1::2]
     elif variant == "reversed_view":
         x = np.array(x[::-1], copy=True)[::-1]  # negative stride
+    elif variant == "bigendian":
+        x = x.astype(">f8")  # same values, non-native byte order (as read from SPHERE/AIFF/network order)
     return x
+
+
+def _route(comp, variant, seed):
+    """the computer object actually called: the constructed one, a copy.deepcopy of it, a pickle round
+    trip of it, or the same object after an earlier compute_full on another signal"""
+    variant = variant.split("+")[0]
+    if variant == "via_deepcopy":
+        import copy
+        return copy.deepcopy(comp)
+    if variant == "via_pickle":
+        import pickle
+        return pickle.loads(pickle.dumps(comp))
+    if variant == "second_call":
+        computers.call(comp.compute_full, sig.signal(seed + 1, 2 * comp.frame_length + 3))
+    return comp
 
 
 def _eval(pt, seed):
@@ -102,7 +120,7 @@ def _eval(pt, seed):
         tags = dict(bank=type(bank).__name__, real=bool(bank.is_real), style=style, kaldi=kaldi,
                     Dmod4=Dexp % 4, pad=pad, S_gt_L=bool(S > L))
         for N in sorted(set([0, L // 2, L // 2 + 1, L, 2 * L + 1, 3 * L + S] + ([S - S // 2 - 1, S - S // 2, S, 2 * S] if S > L else []))):
-            variants = VARIANTS if N in (L, 3 * L + S) else ("generic",)
+            variants = VARIANTS if N == 3 * L + S else VARIANTS[:7] if N == L else ("generic",)
             if use_log and N == L:
                 variants = variants + FLOOR_VARIANTS
             for variant in variants:
@@ -114,7 +132,13 @@ def _eval(pt, seed):
                     if floor is not None:
                         # the documented package constant changes AFTER the computer was built
                         config.LOG_FLOOR_VALUE = floor
-                    r = computers.call(comp.compute_full, sig.rov(x))
+                    rc = computers.call(_route, comp, variant, seed)
+                    if rc[0] != "ok":
+                        viol.append(core.violation(dict(tags, what="exception", exc=rc[1], route=variant),
+                                                   "%s of the computer raised %s: %s" % (variant, rc[1], rc[2]),
+                                                   dict(config=c, N=N, signal=variant)))
+                        continue
+                    r = computers.call(rc[1].compute_full, sig.rov(x))
                 finally:
                     config.LOG_FLOOR_VALUE = old_floor
                 case = dict(config=c, N=N, signal=variant)
@@ -186,7 +210,7 @@ def _replay(case, seed):
     try:
         if floor is not None:
             config.LOG_FLOOR_VALUE = floor
-        r = computers.call(comp.compute_full, sig.rov(x))
+        r = computers.call(lambda: _route(comp, case["signal"], seed).compute_full(sig.rov(x)))
     finally:
         config.LOG_FLOOR_VALUE = old_floor
     tags = dict(bank=type(bank).__name__, real=bool(bank.is_real), style=c["style"],
@@ -350,7 +374,7 @@ def subchecks(tier, seed):
         core.SubCheck(
             "definition", pts, lambda p: _eval(p, seed),
             "real compute_full vs definitional reference at every lattice point; inner loop: "
-            "use_log x use_power x include_energy x N in {0,L//2,L//2+1,L,2L+1,3L+S} (x data alphabet {generic, zeros, loud-then-quiet, outlier, tiny} at N=L and 3L+S); "
+            "use_log x use_power x include_energy x N in {0,L//2,L//2+1,L,2L+1,3L+S} (x data/route alphabet {generic, zeros, loud-then-quiet, outlier, tiny, strided view, negative-stride view, big-endian, computer via deepcopy, via pickle round trip, after an earlier compute_full} at N=L and 3L+S); "
             "non-trivial = at least one frame produced",
             axes=dict(bank=banks, L=list(Ls), S="{1,2,3,L}", pad=[True, False],
                       style=["causal", "centered", "centered+kaldi"], window=["hamming", "default"]),
